@@ -13,6 +13,7 @@ CONSTANTS
   MaxReadFaults = 2
   AllowSoleRecordLoss = FALSE
   AllowIntraSetCollision = FALSE
+  AllowContinueAfterVolatile = FALSE
   RelevantSignersOnly = FALSE
 INIT Init
 NEXT Next
